@@ -51,9 +51,12 @@ CONFIGS = {
     "customattr": ("/", "tag", None, False),
     "missingattr": ("/", "tag", None, True),
     "intvalues": ("|", "name", "int", False),
+    "wordsep": (" then ", "name", None, False),    # a separator made of lower-case letters (case folding must not touch it)
+    "lettersep": ("x", "name", None, False),
     # user node classes with their own truth value / value semantics are nodes like any other
     "falsyvalues": ("/", "name", "falsy", False),   # path attribute values 0, False, 0.0, () - "as a string"
     "norepr": ("/", "name", None, False),   # repr() of the nodes raises: relax=True must still never raise
+    "tuplenode": ("/", "name", None, False),   # the node class is a tuple subclass ("%r" % node must not unpack it)
     "falsy": ("/", "name", None, False),
     "eqhash": ("/", "name", None, False),
 }
@@ -71,6 +74,13 @@ def node_class(sep, variant="plain"):
             def _norepr(self):
                 raise RuntimeError("repr() of this node is not available")
             d["__repr__"] = _norepr
+        elif variant == "tuplenode":
+            import collections
+
+            base = collections.namedtuple("Entry", "kind size")
+            cls = type("SepNode_tuple", (base, anytree.NodeMixin), {"separator": sep, "__new__": lambda c: base.__new__(c, "entry", 0)})
+            _CLS[(sep, variant)] = cls
+            return cls
         elif variant == "eqhash":
             d["__eq__"] = lambda self, other: True
             d["__ne__"] = lambda self, other: False
@@ -81,7 +91,7 @@ def node_class(sep, variant="plain"):
 
 def build(m, names, cfg):
     sep, attr, transform, missing = CONFIGS[cfg]
-    cls = node_class(sep, cfg if cfg in ("falsy", "eqhash", "norepr") else "plain")
+    cls = node_class(sep, cfg if cfg in ("falsy", "eqhash", "norepr", "tuplenode") else "plain")
     nodes = []
     strnames = []
     for i in range(m.n):
@@ -124,9 +134,24 @@ def check_tree(t, shape, names, cfg, maxcomp, only=None):
     paths = paths_for(strnames, sep, maxcomp)
     resolvers = {(ic, rx): anytree.Resolver(attr, ignorecase=ic, relax=rx) for ic in (False, True) for rx in (False, True)}
     ctx = {"shape": shape, "names": list(names), "config": cfg}
+    if sep != "/" and only is None:
+        # the same path strings are first resolved on a twin tree of a class with ANOTHER separator (process-wide state
+        # keyed by the path alone would leak from one class to the other)
+        twin = [node_class("/")() for _ in range(m.n)]
+        for i in range(m.n):
+            setattr(twin[i], attr, strnames[i])
+            if m.par[i] is not None:
+                twin[i].parent = twin[m.par[i]]
+    else:
+        twin = None
     for start in range(m.n):
         t.c["states"] += 1
         for path in paths:
+            if twin is not None:
+                try:
+                    resolvers[(False, True)].get(twin[m.n - 1], path)   # same string, other separator, just before
+                except Exception:  # noqa
+                    pass
             for ic in (False, True):
                 exp = ref_get(m, strnames, start, path, sep, ic)
                 for rx in (False, True):
@@ -266,6 +291,7 @@ def plan(tier):
                 (1, 3, NAMES_SMALL, "semicolon", 2), (1, 3, NAMES_SMALL, "doublecolon", 2), (1, 3, NAMES_SMALL, "customattr", 2),
                 (1, 3, NAMES_SMALL, "missingattr", 2), (1, 3, NAMES_SMALL, "intvalues", 2),
                 (1, 3, NAMES_SMALL, "falsy", 2), (1, 3, NAMES_SMALL, "eqhash", 2), (1, 3, NAMES_SMALL, "falsyvalues", 2), (1, 3, NAMES_SMALL, "norepr", 2),
+                (1, 3, ("a", "A", "b"), "wordsep", 2), (1, 3, ("a", "A", "b"), "lettersep", 2), (1, 3, ("a", "A", "b"), "tuplenode", 2),
                 (2, 3, ("a", "a;b", "b"), "semicolon", 3), (5, 5, ("a", "b"), "doublecolon", 2)]
     else:
         spec = [(1, 4, NAMES_FULL, "default", 3), (5, 5, NAMES_SMALL, "default", 2)] + \
@@ -289,7 +315,7 @@ def run(tier):
         "evaluations": t.c["evaluations"], "distinct_nontrivial": t.c["nontrivial"],
         "rule": "ordered trees x every name assignment over the alphabet (duplicates among siblings, case pairs, wildcard "
                 "characters, the other class's separator, '.') x start x every path of 1..3 components over {names, unknown, "
-                "'..', '.', ''} relative and absolute x ignorecase x relax x 9 separator/pathattr/value/node-class configurations, against a "
+                "'..', '.', ''} relative and absolute x ignorecase x relax x 13 separator/pathattr/value/node-class configurations, against a "
                 "reference step interpreter (exact node, exact error class, None when relaxed); one Resolver object used before "
                 "and after every single rename of a node (re-use histories); round-trip theorems on "
                 "sibling-unique ordinary names; non-trivial = the path leads to another node than the start node",
